@@ -355,10 +355,20 @@ def run(ctx):
             zs.append(("zoo", cls, e))
         boxes = zoo.BOXES[cls]
         reps = boxes[:: max(1, len(boxes) // (6 if ctx.quick else 14))]
+        vals = {}
+        for a in boxes:
+            try:
+                vals[a] = zoo.value(cls, a)
+            except Exception:
+                pass
         for a in boxes:
             for b in reps:
                 zs.append(("zoo", cls, "(%s) @ (%s)" % (a, b)))
                 zs.append(("zoo", cls, "(%s) @ (%s) @ (%s)" % (b, a, b)))
+            # wired pairs (the move must be refused with InterchangerError, whatever the boxes are)
+            for b in (boxes if len(boxes) <= 40 else reps):
+                if a in vals and b in vals and len(vals[a].cod) and ref.ty_key(vals[a].cod) == ref.ty_key(vals[b].dom):
+                    zs.append(("zoo", cls, "(%s) >> (%s)" % (a, b)))
     if ctx.quick:
         ctx.cap_hit("zoo: second operand of the two/three-box products ranges over 6 representatives per class")
     zs = [r for r in zs if len(build_any(r)) >= 2]
